@@ -53,6 +53,7 @@ pub(crate) fn repair_index<S: Open>(
     let mut checker = PackChecker::new(repo)?;
 
     let p = repo.progress_counter("reading index...");
+    let mut index_remove = Vec::new();
     for index in be.stream_all::<IndexFile>(&p)? {
         let (index_id, index) = index?;
         let (new_index, changed) = checker.check_pack(index, opts.read_all);
@@ -62,7 +63,8 @@ pub(crate) fn repair_index<S: Open>(
                 if !new_index.packs.is_empty() || !new_index.packs_to_delete.is_empty() {
                     _ = be.save_file(&new_index)?;
                 }
-                be.remove(FileType::Index, &index_id, true)?;
+                // the old index file is only removed once the packs to re-read are indexed again
+                index_remove.push(index_id);
             }
             (false, _) => {} // nothing to do
         }
@@ -108,6 +110,12 @@ pub(crate) fn repair_index<S: Open>(
     }
     indexer.write().unwrap().finalize()?;
     p.finish();
+
+    // now that all packs are indexed (again), the superseded index files can be removed;
+    // removing them earlier would leave the blobs of the re-read packs unindexed if interrupted
+    for index_id in index_remove {
+        be.remove(FileType::Index, &index_id, true)?;
+    }
 
     Ok(())
 }
